@@ -62,6 +62,7 @@ class C19(Prop):
     model_scope = ("modelled: the truncation loops of power_law.py / scale_free_cut_off.py (executably for integer exponents, as real functions in "
                    "Properties/C19.lean); exponential.py and poisson.py as real functions")
     budgets = {"quick": 60, "thorough": 600}
+    recheck = {"quick": 4, "thorough": 20}
     search_budget = {"quick": 100, "thorough": 600}
 
     def gen(self, rng, i, tier):
